@@ -117,7 +117,47 @@ def text_for_lines(rng, lines, colw, font, size):
     return t
 
 
+def gen_tight(rng):
+    """tables that fill their page(s) EXACTLY (+-1 row): one-line rows, row count chosen from the budget the
+    statement implies (nrow minus header / footnote / source rows), every placement combination"""
+    nrow = rng.randint(3, 16)
+    hdr = rng.choice(["explicit", "explicit", "tworow", "none"])
+    spec = G.gen_table_spec(rng, nrows=1, ncols=(1, 3), strategy=rng.choice(["plain", "plain", "page_by"]),
+                            attrs_p=0.0, rich=0.0, nrow=nrow, header=hdr, page={}, col_rel_width=False,
+                            title=False, subline=False, page_hf=False, footnote=rng.random() < 0.7,
+                            source=rng.random() < 0.7, maxruns=1)
+    page = spec.setdefault("page", {})
+    page["nrow"] = nrow
+    for k in ("page_footnote", "page_source"):
+        page[k] = rng.choice(G.PLACES)
+    fixed = {"explicit": 1, "tworow": 2, "none": 0}[hdr]
+    for k in ("footnote", "source"):
+        if isinstance(spec.get(k), dict):
+            spec[k]["as_table"] = rng.random() < 0.75
+            fixed += 1
+    if spec["body"].get("page_by"):
+        fixed += len(spec["body"]["page_by"])
+    pages = rng.choice([1, 1, 2, 3])
+    per = max(1, nrow - fixed)
+    n = max(1, per * pages + rng.choice([-1, 0, 0, 1]))
+    # rebuild the frame with n one-line rows (single group)
+    cols = spec["df"]["cols"]
+    keyj = spec["_meta"]["key"]
+    for j, c in enumerate(cols):
+        if j == keyj:
+            c["values"] = [f"d{r}c{j}" for r in range(n)]
+        elif c["name"] in (spec["body"].get("page_by") or []):
+            c["values"] = [c["values"][0]] * n
+        else:
+            c["dtype"] = "str"
+            c["values"] = ["x"] * n
+    spec["_meta"]["nrows"] = n
+    return spec
+
+
 def gen_spec(rng):
+    if rng.random() < 0.2:
+        return gen_tight(rng)
     strategy = rng.choice(["plain", "plain", "plain", "page_by", "page_by_new", "page_by_new_first", "subline",
                            "nested", "subline_page_by"])
     nrow = rng.choice([rng.randint(1, 50), rng.randint(4, 14), rng.randint(6, 20)])
